@@ -311,6 +311,8 @@ DELEGATING = ('getUtcOffset', 'getDeltaOffset', 'getAbbrev', 'getOffsetDateTime'
 
 def bound_to_own_zone(c):
     """every processor query made on behalf of this time zone found the processor bound to this zone"""
+    if not c.own:
+        return []       # a statement about the calls made DURING this call: proved at its own exit, says nothing at a call site
     f = tz_fields(c.old, c.this if c.fn is None or c.fn.params[0][1] == 'this' else c.args[1])
     out = []
     for k, e in enumerate(c.log):
@@ -326,7 +328,6 @@ def _utc_post(c):
     f = tz_fields(c.old, c.this)
     t = f['type']
     zone_kind = z3.Or(t == K_BASIC, t == K_EXT, t == K_BASIC_M, t == K_EXT_M)
-    answers = [e for e in c.log if e[0] == 'getUtcOffset']
     out = _utc_offset_manual_post(c)
     out.append(('unknown-kind-gives-error-offset', z3.Implies(z3.And(t != K_MANUAL, z3.Not(zone_kind)), c.result == z3.BitVecVal(-32768, 16))))
     out += bound_to_own_zone(c)
@@ -432,6 +433,8 @@ _setter('setDstOffset', 'dst', 'std')
 # ---- operator!= is the negation of operator== (C16: "compare equal exactly when ...") ---------------------------------------
 def _neq(T):
     def post(c):
+        if not c.own:
+            return []   # stated through this call's own call to operator==; nothing is exported to call sites
         calls = [e for e in c.log if e[0] == 'call' and e[1].startswith('ace_time::operator==(' + T)]
         if not calls:
             return [('decided-by-operator==', z3.BoolVal(False))]
